@@ -1,6 +1,7 @@
 pub mod c01;
 pub mod c06;
 pub mod c07;
+pub mod c09;
 
 use crate::evidence::{Ctx, Meta, Report};
 
@@ -9,6 +10,7 @@ pub fn dispatch(ctx: &Ctx) -> Option<(Report, Meta)> {
         "C01" => c01::run(ctx),
         "C06" => c06::run(ctx),
         "C07" => c07::run(ctx),
+        "C09" => c09::run(ctx),
         _ => return None,
     })
 }
